@@ -71,7 +71,8 @@ def run_impl(case):
             mem = cache.setup("mem://?size=100000&check_interval=" + ("0.25" if case["purge"] else "0") + case.get("conf", ""),
                               **({"prefix": "l:"} if keyname["L"] != "L" else {}))
             mem2 = cache.setup("mem://?size=100000&check_interval=0", prefix="p:")      # keys under 'p:' are routed to a second backend
-            await cache.init()
+            if not (len(case["schedule"]) > 20 and case["schedule"][1] % 3 == 2 and not case["purge"]):
+                await cache.init()      # (otherwise the backends are initialised lazily, by the first command that goes through the facade)
             names = {f"T{i}": i for i in range(len(case["tasks"]))}
             names["F"] = 99
             tokens = {}   # token -> task index
